@@ -88,3 +88,13 @@ func W[T any](p *T, where string) *T {
 	}
 	return p
 }
+
+// Appended marks the elements that an append added (those beyond len(old)) as written.
+func Appended[T any](where string, old []T, r []T) []T {
+	if sc := S; sc != nil && sc.TrackRaces {
+		for i := len(old); i < len(r); i++ {
+			sc.access(uintptr(unsafe.Pointer(&r[i])), true, where)
+		}
+	}
+	return r
+}
